@@ -11,6 +11,7 @@ e (added)  options given to Manifold.compute reach _run_compute under their own 
 
 e (round 3)  the measured drift is max|C_i - C_0|/|C_0| of the Jacobi constant (exact on-axis histories: up, down, mixed, negative, vanishing reference)
 b-pipeline (round 3)  two manifold services never hold the same (stateful) stability pipeline object
+b (round 4)  the cleaning step keeps the eigen-solver order and the value/vector pairing (non-monotone moduli)
 """
 from __future__ import annotations
 
@@ -54,6 +55,7 @@ def run(tier):
     _e_forwarding(chk)
     _e_energy_measure(chk)
     _b_private_pipeline(chk)
+    _b_clean_keeps_order(chk)
     # a cached manifold is the one computed with the requested guards; every integration method gets the direction-wrapped system
     from . import c20, c10
     from .common import Relabel
@@ -66,6 +68,36 @@ def run(tier):
 
 
 PARAMS = ("step", "integration_fraction", "NN", "displacement", "method", "order", "dt", "energy_tol", "safe_distance")
+
+
+def _b_clean_keeps_order(chk):
+    """The eigenpairs reach the classification in eigen-solver order, each value with its own vector: the cleaning step
+    (_sort_eigenvalues: zero tiny imaginary parts, pivot-normalise) is interpreted on a concrete spectrum whose moduli are NOT
+    monotone - (1/2000, 999/1000, 2000, 1001/1000): the genuine stable multiplier first, the numerically split unit pair behind it,
+    as LAPACK returns them for the Lyapunov / halo orbits - and must return the same values in the same order, vector k a multiple
+    of input vector k.  (Manifold.compute(NN=1) takes the FIRST stable pair; sorting by modulus puts the near-unit multiplier first
+    and seeds the stable branch along the flow tangent.)"""
+    LB = "hiten.algorithms.linalg.backend"
+    mod, cls = ri.find_def(LB, "_LinalgBackend")
+    R = sp.Rational
+    vals = [R(1, 2000), R(999, 1000), R(2000), R(1001, 1000)]
+    V = sp.Matrix([[2, 1, 3, -1], [1, -2, 1, 4], [0, 3, -2, 1], [5, 1, 1, 2]])
+    obj = SymObj(ClassRef(mod, cls), {}, "backend")
+    ip = Interp()
+    try:
+        cv, cw = ip.apply(ip.getattr(obj, "_sort_eigenvalues"), [to_obj_array(vals), to_obj_array(V.tolist())], {})
+    except OutsideFragment as exc:
+        raise AnalysisError(f"_LinalgBackend._sort_eigenvalues outside fragment: {exc}")
+    chk.count("functions partially evaluated")
+    cv = [sp.nsimplify(S(v)) for v in to_obj_array(cv)]
+    W = sp.Matrix(to_obj_array(cw).tolist()).applyfunc(lambda e: sp.nsimplify(S(e)))
+    chk.check(cv == vals, "C12.b", f"{LB}::_LinalgBackend._sort_eigenvalues[order]",
+              f"the cleaned eigenvalues are {cv} for the input {vals}: the eigen-solver order is not preserved (the first stable multiplier is no longer the genuine one)",
+              sample=f"{vals} -> same order")
+    ok = W.shape == V.shape and all(sp.Matrix.hstack(W[:, k], V[:, k]).rank() == 1 for k in range(4))
+    chk.check(ok, "C12.b", f"{LB}::_LinalgBackend._sort_eigenvalues[pairing]",
+              "a cleaned eigenvector is not a multiple of the input eigenvector in the same column: values and vectors are no longer paired",
+              sample="column k of the output is a multiple of column k of the input")
 
 
 def _b_private_pipeline(chk):
@@ -420,7 +452,7 @@ def _bcde_run_compute(chk):
 
             def decide(cond):
                 s = sp.sstr(cond)
-                if "ENERGY_ERR" in s:
+                if "ENERGY_ERR" in s or "etol" in s:      # the comparison with energy_tol, whatever quantity is compared
                     return guard_energy
                 if "Rp" in s or "Rs" in s:
                     return guard_prox
